@@ -1,2 +1,2 @@
 (* C15 - the executable model: border.py (Border.v) and features.py (Feat.v) over the generated part (Gen.v). *)
-Require Export MV.C15.Prelude MV.C15.Gen MV.C15.Border MV.C15.Feat.
+Require Export MV.C15.Prelude MV.C15.Gen MV.C15.Border MV.C15.Feat MV.C15.FeatGeo.
